@@ -254,6 +254,13 @@ Check C15_first_rc_nearest : forall rcs dirs d al,
   first_rc rcs dirs = Some (d, al) ->
   exists l1 l2, dirs = l1 ++ d :: l2 /\ rc_at rcs d = Some al /\ (forall x, In x l1 -> rc_at rcs x = None).
 
+Theorem C15_nearest_luaurc_without_aliases_hides_outer : forall c rcs src d name,
+  first_rc rcs (ancestors src) = Some (d, []) -> rc_lookup (rc_aliases c rcs src) name = None.
+Proof. exact rc_lookup_nearest_without_aliases. Qed.
+Print Assumptions C15_nearest_luaurc_without_aliases_hides_outer.
+Check C15_nearest_luaurc_without_aliases_hides_outer : forall c rcs src d name,
+  first_rc rcs (ancestors src) = Some (d, []) -> rc_lookup (rc_aliases c rcs src) name = None.
+
 (** the written argument is read back as the generated path *)
 Theorem C15_parse_write_roundtrip : forall p, wf_rel p = true -> parse_path (write_require_path p) = p.
 Proof. exact parse_write_roundtrip. Qed.
